@@ -124,8 +124,32 @@ def drive_(a, rng):
     # tampered shared part: must be refused iff check_shared_equality
     if len(shared) >= 1 and len(tb.nodes) >= 1:
         tt = tb.copy()
-        what = rng.choice(["time", "edge", "mutation"])
+        what = rng.choice(["time", "edge", "mutation", "node_metadata", "edge_metadata", "mutation_metadata", "site_metadata", "population_metadata",
+                           "individual_metadata"])
         done = False
+        if what.endswith("_metadata"):
+            # the shared rows differ only in their metadata bytes
+            nsh = len(shared)
+            tabname = what.split("_")[0] + "s"
+            tab = getattr(tt, tabname)
+            if tabname == "nodes":
+                idx = list(range(nsh))
+            elif tabname == "edges":
+                idx = [i for i, e in enumerate(tt.edges) if e.parent < nsh and e.child < nsh]
+            elif tabname == "mutations":
+                idx = [i for i, m in enumerate(tt.mutations) if m.node < nsh]
+            elif tabname == "sites":
+                idx = sorted({m.site for m in tt.mutations if m.node < nsh})
+            elif tabname == "populations":
+                idx = sorted({int(tt.nodes[u].population) for u in range(nsh) if tt.nodes[u].population != tskit.NULL})
+            else:
+                idx = sorted({int(tt.nodes[u].individual) for u in range(nsh) if tt.nodes[u].individual != tskit.NULL})
+            if idx:
+                md = [bytes(r.metadata) for r in tab]
+                j = rng.choice(idx)
+                md[j] = md[j] + b"~"
+                tab.packset_metadata(md)
+                done = True
         if what == "time":
             fl = tt.nodes.flags.copy()      # a change that keeps `other` a valid collection
             fl[0] = fl[0] ^ 4
@@ -138,7 +162,7 @@ def drive_(a, rng):
                 keep[idx[0]] = False
                 tt.edges.keep_rows(keep)
                 done = True
-        else:
+        elif what == "mutation":
             idx = [i for i, m in enumerate(tt.mutations) if m.node < len(shared)]
             if idx:
                 ds = [m.derived_state for m in tt.mutations]
